@@ -297,6 +297,41 @@ func c15ContainsLaw(c *Case) {
 			}
 		}
 	}
+	// arrays that come from the input document and lie next to each other in a parent array: growing one leaves its
+	// neighbours alone (each is its own list, however the reader allocated them)
+	for n := 0; n < 16; n++ {
+		rng := caseRng(c.Seed, "C15-rows", n)
+		rows := [][]any{{1.0, 2.0}, {3.0, 4.0}, {5.0}, {}, {6.0, 7.0, 8.0}}
+		doc := map[string]any{"rows": []any{rows[0], rows[1], rows[2], rows[3], rows[4]}, "grid": []any{[]any{[]any{1.0}, []any{2.0}}, []any{[]any{3.0}}}}
+		d := V("$")
+		row := func(i int) Expr { return Idx(Mem(d, "rows"), N(strconv.Itoa(i))) }
+		var body []Stmt
+		for k := 0; k < 6; k++ {
+			i := rng.IntN(5)
+			switch rng.IntN(4) {
+			case 0:
+				body = append(body, ES(Meth(row(i), "push", N(strconv.Itoa(90+k)))))
+			case 1:
+				body = append(body, asg(Idx(row(i), N(strconv.Itoa(3+rng.IntN(3)))), S("far")))
+			case 2:
+				body = append(body, ES(Meth(row(i), "push", N(strconv.Itoa(80+k)))), ES(Meth(row(i), "push", N(strconv.Itoa(70+k)))))
+			default:
+				body = append(body, ES(Meth(Idx(Idx(Mem(d, "grid"), N("0")), N(strconv.Itoa(rng.IntN(2)))), "push", S("g"))))
+			}
+			body = append(body, Pr(S("step"+strconv.Itoa(k)), jsonOf(Mem(d, "rows")), jsonOf(Mem(d, "grid")), Meth(row((i+1)%5), "length"), Meth(row((i+1)%5), "contains", N(strconv.Itoa(90+k)))))
+		}
+		p := &Program{Items: []any{&Rule{Kind: "pattern", Body: &Block{Stmts: body}}}}
+		c.NonTrivial(fmt.Sprintf("rows:%d", n))
+		c.Count("document_row_programs")
+		m2(c, &M2Case{Prog: p, Files: []InFile{{Name: "in.json", Data: jsonBytes(doc)}}, WantRoot: true, Desc: "arrays of the input document that are siblings in a parent array"})
+	}
+	// sort: strings that spell numbers are ordered as strings (unless every element is a number)
+	for n, items := range [][]Expr{{S("10"), S("9"), S("100")}, {N("2"), S("10"), N("1")}, {S("1"), S("02"), S("3"), S("-1")}, {S("1.5"), S("1.10"), S("1.9")}, {N("10"), N("9"), S("8")}, {S("9"), N("10")}, {S("10"), S("9"), S("a")}, {N("10"), N("9"), N("100")}} {
+		p := &Program{Items: []any{&Rule{Kind: "BEGIN", Body: Blk(asg(V("a"), Arr(items...)), Pr(jsonOf(Meth(V("a"), "sort")), jsonOf(V("a"))))}}}
+		c.NonTrivial(fmt.Sprintf("numstrsort:%d", n))
+		c.Count("numeric_string_sorts")
+		m2(c, &M2Case{Prog: p, Desc: "sort of strings that spell numbers"})
+	}
 	// contains() on long arrays of one kind, before and after writes that do not change the length
 	for n := 0; n < 24; n++ {
 		rng := caseRng(c.Seed, "C15-contains-long", n)
@@ -458,7 +493,7 @@ func c15Run(c *Case) {
 func init() {
 	register(&Prop{
 		ID: "C15", Level: "exploration",
-		Rule:          "sampled histories of 5-40 operations (push pop popfirst index-read index-write length contains sort, nested method calls inside arguments) over two arrays held by a variable, $-path, object member or array element, in half of the histories the first one also by a second name through which a third of the operations go (a length change is seen through every reference), element values of every kind; after every operation the program prints the result and json()/length() of both arrays, compared with an ideal-list model; candidate steps leaving the stated semantics are discarded with the model. Enumerated: every ordered pair of 13 operations on arrays of length 0,1,2,5 (676 programs); contains(v) vs v == a[0] on 17x17 value pairs (law on the implementation alone); contains() on arrays of 31-100 strings / numbers before and after stores that keep the length (24 programs); sort() of 0-3 elements gives a new array (24 programs storing / pushing / popping through the result and the receiver afterwards); 40 sorts of 13-52 elements with equal keys of different kinds (stable). Non-trivial = history with a removal followed by an append/extension, or a nested call; distinct by program text.",
+		Rule:          "sampled histories of 5-40 operations (push pop popfirst index-read index-write length contains sort, nested method calls inside arguments) over two arrays held by a variable, $-path, object member or array element, in half of the histories the first one also by a second name through which a third of the operations go (a length change is seen through every reference), element values of every kind; after every operation the program prints the result and json()/length() of both arrays, compared with an ideal-list model; candidate steps leaving the stated semantics are discarded with the model. Enumerated: every ordered pair of 13 operations on arrays of length 0,1,2,5 (676 programs); contains(v) vs v == a[0] on 17x17 value pairs (law on the implementation alone); 16 programs that grow arrays of the input document which are siblings in a parent array (rows of a table, cells of a grid); 8 sorts of strings that spell numbers; contains() on arrays of 31-100 strings / numbers before and after stores that keep the length (24 programs); sort() of 0-3 elements gives a new array (24 programs storing / pushing / popping through the result and the receiver afterwards); 40 sorts of 13-52 elements with equal keys of different kinds (stable). Non-trivial = history with a removal followed by an append/extension, or a nested call; distinct by program text.",
 		NumCases:      c15Cases,
 		Run:           c15Run,
 		MinConclusive: func(tier string) int { return 3000 },
